@@ -116,6 +116,24 @@ def run_case(tree, st):
                         (data2 or b'')[:120]), tree)
         return
 
+    # ... and with every content assigned twice (something else first, the
+    # options in between)
+    try:
+        data3 = trees.build(dict(tree, via_constructor=False),
+                            staged=True).to_bytes()
+        raised3 = None
+    except Exception as e:
+        data3 = None
+        raised3 = e
+
+    if data3 != data or (raised is None) != (raised3 is None):
+        st.violation('bytes-depend-on-earlier-content-of-a-section',
+                     'plain build: %r / %r; every content first assigned '
+                     'something else: %r / %r'
+                     % (raised, (data or b'')[:120], raised3,
+                        (data3 or b'')[:120]), tree)
+        return
+
     if not ok:
         if raised is None:
             st.violation('unserialisable-tree-accepted',
